@@ -84,6 +84,18 @@ def _section(draw, pal, idx, multi):
         if draw(st.integers(0, 9)) < 4:
             h["border_color_" + draw(st.sampled_from(["left", "top", "bottom"]))] = draw(st.sampled_from(pal))
         headers = [h]
+    elif hmode == "default" and draw(st.integers(0, 9)) < 5:
+        # a header WITHOUT text (labels are filled in from the column names) that carries colours / a font
+        h = {"text": None}
+        if draw(st.booleans()):
+            h["text_color"] = draw(st.sampled_from(pal))
+        if draw(st.booleans()):
+            h["text_background_color"] = draw(st.sampled_from(pal))
+        if draw(st.integers(0, 9)) < 3:
+            h["border_color_bottom"] = draw(st.sampled_from(pal))
+        if draw(st.booleans()):
+            h["text_font"] = draw(st.integers(1, 10))
+        headers = [h]
     else:
         headers = hmode
     return {"df": {"cols": cols}, "body": body, "headers": headers}
@@ -298,8 +310,15 @@ def check(case) -> Result:
                                    attr_at(hd.get("text_font"), 0, c, 1))
                         cx.borders(f"header/{kind}", cell, hd, 0, c, c == len(it.block.cells) - 1)
                 else:
-                    for cell in it.block.cells:
-                        cx.element(f"autoheader/{kind}", cell.cprops, None, None, 1)
+                    hd = {}
+                    for s_ in secs:
+                        if any(c["name"] == t0 for c in s_["df"]["cols"]) and isinstance(s_.get("headers"), list) and s_["headers"] and s_["headers"][0]:
+                            hd = s_["headers"][0]
+                    for c, cell in enumerate(it.block.cells):
+                        cx.element(f"autoheader/{kind}", cell.cprops, attr_at(hd.get("text_color"), 0, c), attr_at(hd.get("text_background_color"), 0, c),
+                                   attr_at(hd.get("text_font"), 0, c, 1))
+                        if hd:
+                            cx.borders(f"autoheader/{kind}", cell, hd, 0, c, c == len(it.block.cells) - 1)
             elif it.role in ("title", "subline"):
                 spec = case.get(it.role)
                 for ln, (txt, cp) in enumerate(line_runs(it.block)):
